@@ -352,4 +352,81 @@ example : resolve sample ⟨3, none⟩ =
 
 example : declaredType sample ⟨3, none⟩ "b" = some (listOf intH) := by decide
 
+/-! ### Further non-vacuity witnesses: every theorem above applied with all hypotheses discharged
+    (pydantic kind, shadowing by a generic annotation, a real diamond, single inheritance,
+    closedness, composition) -/
+
+/-- `sample` as a pydantic hierarchy -/
+def samplePyd : Hierarchy := { sample with kind := .pydantic }
+
+example : Wf samplePyd ∧ PrecedenceAgrees samplePyd ∧ samplePyd.kind = .pydantic := by decide
+
+example : (resolve samplePyd ⟨2, some [strH, intH]⟩).lookup "c" = declaredType samplePyd ⟨2, some [strH, intH]⟩ "c" :=
+  resolve_eq_spec_pydantic samplePyd (by decide) (by decide) rfl ⟨2, some [strH, intH]⟩ (by decide) "c"
+
+example : resolve samplePyd ⟨2, some [strH, intH]⟩ = [("a", strH), ("b", listOf intH), ("c", strH)] := by decide
+
+/-- shadowing by a GENERIC annotation:
+    `class Q(P[T1, T0], Generic[T0, T1]): a: List[T0]` over `G.a: T0` -/
+def sampleShadow : Hierarchy :=
+  { sample with classes := [
+    { params := [0, 1], ownOrigBases := some [], bases := [], mro := [0],
+      ownAnn := [("a", .tv 0), ("b", listOf (.tv 1))] },
+    { params := [2, 3], ownOrigBases := some [⟨0, some [intH, .tv 2]⟩], bases := [⟨0, none⟩], mro := [1, 0],
+      ownAnn := [("c", .tv 3)] },
+    { params := [0, 1], ownOrigBases := some [⟨1, some [.tv 1, .tv 0]⟩], bases := [⟨1, none⟩], mro := [2, 1, 0],
+      ownAnn := [("a", listOf (.tv 0))] },
+    { params := [], ownOrigBases := none, bases := [⟨2, none⟩], mro := [3, 2, 1, 0], ownAnn := [] }] }
+
+theorem sampleShadow_hyps : Wf sampleShadow ∧ PrecedenceAgrees sampleShadow ∧ OverrideVisible sampleShadow ∧
+    MroMonotone sampleShadow ∧ NoConflict sampleShadow := by decide
+
+example : (resolve sampleShadow ⟨2, some [strH, intH]⟩).lookup "a" = some (listOf strH) :=
+  shadowing_wins sampleShadow sampleShadow_hyps.1 sampleShadow_hyps.2.1 sampleShadow_hyps.2.2.1 (by decide)
+    ⟨2, some [strH, intH]⟩ (by decide) "a" (listOf (.tv 0)) (by decide)
+
+/-- a diamond whose branches only SHARE an ancestor:
+    ```
+    class A(Generic[T]):            a: T
+    class B(A[T], Generic[T]):      b: List[T]
+    class C(A[U], Generic[U]):      c: U
+    class D(B[int], C[int]):        pass            # MRO: D, B, C, A
+    class E(D):                     a: str          # shadows through the diamond
+    ``` -/
+def diamondOk : Hierarchy where
+  kind := .dataclass
+  tvars := [(0, ⟨[], none⟩), (1, ⟨[], none⟩)]
+  classes := [
+    { params := [0], ownOrigBases := some [], bases := [], mro := [0], ownAnn := [("a", .tv 0)] },
+    { params := [0], ownOrigBases := some [⟨0, some [.tv 0]⟩], bases := [⟨0, none⟩], mro := [1, 0],
+      ownAnn := [("b", listOf (.tv 0))] },
+    { params := [1], ownOrigBases := some [⟨0, some [.tv 1]⟩], bases := [⟨0, none⟩], mro := [2, 0],
+      ownAnn := [("c", .tv 1)] },
+    { params := [], ownOrigBases := some [⟨1, some [intH]⟩, ⟨2, some [intH]⟩], bases := [⟨1, none⟩, ⟨2, none⟩],
+      mro := [3, 1, 2, 0], ownAnn := [] },
+    { params := [], ownOrigBases := none, bases := [⟨3, none⟩], mro := [4, 3, 1, 2, 0], ownAnn := [("a", strH)] }]
+
+theorem diamondOk_hyps : Wf diamondOk ∧ MroMonotone diamondOk ∧ NoConflict diamondOk := by decide
+
+example : ResolveEqSpec diamondOk :=
+  resolve_eq_spec_no_conflict diamondOk diamondOk_hyps.1 diamondOk_hyps.2.1 diamondOk_hyps.2.2 (by decide) (by decide)
+
+example : resolve diamondOk ⟨3, none⟩ = [("a", intH), ("c", intH), ("b", listOf intH)] := by decide
+example : resolve diamondOk ⟨4, none⟩ = [("a", strH), ("c", intH), ("b", listOf intH)] := by decide
+example : ¬ (∀ c < diamondOk.classes.length, (origBases diamondOk c).length ≤ 1) := by decide
+
+/-- `precedence_of_single_inheritance`, hypotheses discharged by `sample` -/
+example : PrecedenceAgrees sample :=
+  precedence_of_single_inheritance sample (by decide) (by decide) (by decide)
+
+/-- `resolved_closed`, hypotheses discharged (closed arguments of the right arity) -/
+example : (listOf intH).tvs = [] :=
+  resolved_closed sample (by decide) (by decide) (by decide) (by decide) ⟨2, some [strH, intH]⟩ (by decide)
+    (by decide) "b" (listOf intH) (by decide)
+
+/-- `subst_comp`: `List[T1]` of `G`, seen through `P(G[int, T2])` and then `P[str, Any]` -/
+example : ((listOf (.tv 1)).subst ([0, 1].zip [intH, .tv 2])).subst [(2, strH), (3, anyHint)]
+    = (listOf (.tv 1)).subst ([0, 1].zip ([intH, .tv 2].map (·.subst [(2, strH), (3, anyHint)]))) :=
+  subst_comp _ _ _ _ (by decide) (by decide)
+
 end Adaptix.Generic.C16
